@@ -60,6 +60,7 @@ var quickFonts = []string{"debug-cff", "goregular", "gomono",
 	"synth-ttf:glyphs=1:glyf=65534", "synth-ttf:glyphs=1:glyf=65536",
 	"goregular:glyf=131070", "goregular:glyf=131072", "goregular:glyf=131074",
 	"goregular:glyphs=300", "goregular:glyphs=300:glyf=65534", "goregular:glyphs=300:glyf=65536",
+	"goregular:cmap=3", "goregular:cmap=4", "gomono:cmap=3",
 }
 var thoroughFonts = []string{"gobold", "goitalic", "gomedium", "gomonobold", "gobolditalic", "gosmallcaps",
 	"synth-ttf:glyphs=65535", "synth-cff:glyphs=20000", "synth-ttf:glyphs=3:glyf=262144",
@@ -113,7 +114,42 @@ func makeFont(name string) (f *sfnt.Font, orig []byte, want map[int][]seg, err e
 	if err == nil && spec.glyf != 0 {
 		err = padGlyf(f, spec.glyf)
 	}
+	if err == nil && spec.cmap != 0 {
+		err = layoutCmap(f, spec.cmap)
+	}
 	return f, src, nil, err
+}
+
+// layoutCmap replaces the character map by a table with several encoding
+// records: a BMP subtable A stored under two keys and a full-Unicode subtable
+// B (A's mapping plus U+1F600) under one or two keys, so that - in the sorted
+// record order of the cmap table - a record SHARING its subtable with an
+// earlier record is followed by a record with a subtable of its own.
+func layoutCmap(f *sfnt.Font, kind int) error {
+	best, err := f.CMapTable.GetBest()
+	if err != nil {
+		return err
+	}
+	a, b := cmap.Format4{}, cmap.Format12{}
+	lo, hi := best.CodeRange()
+	for r := lo; r <= hi && r <= 0xFFFF; r++ {
+		if g := best.Lookup(r); g != 0 {
+			a[uint16(r)] = g
+			b[uint32(r)] = g
+		}
+	}
+	b[0x1F600] = 36
+	ea, eb := a.Encode(0), b.Encode(0)
+	t := cmap.Table{
+		{PlatformID: 0, EncodingID: 3}:  ea,
+		{PlatformID: 3, EncodingID: 1}:  ea,
+		{PlatformID: 3, EncodingID: 10}: eb,
+	}
+	if kind == 4 {
+		t[cmap.Key{PlatformID: 0, EncodingID: 4}] = eb
+	}
+	f.CMapTable = t
+	return nil
 }
 
 const sigFont = "c03-second-implementation-disagrees"
